@@ -137,6 +137,10 @@ def run(chk):
         if a != r:
             chk.violate({"kind": "property", "case": lib.show_case(("debloadeof", [b"<%d bytes>" % len(c[1][0])])), "load": r[:600], "load_eager_eof": a[:600],
                          "explanation": "Load through an io.ReaderAt that reports io.EOF together with the final bytes does not expose what Load on a bytes.Reader exposes"})
+    # path.Clean (the control entry is the first tar member whose cleaned name is "control") and filepath.Ext (the
+    # compression of a member) against their model PATH.v
+    import pathgen
+    pathgen.stream(chk, ["pclean", "pext"])
     # two packages open at the same time: each exposes its own control data and payload (codec state is per package)
     pairs = []
     for enc in debpkg.ENCODINGS:
